@@ -16,6 +16,7 @@ for src in map(pathlib.Path, sys.argv[1:]):
         d = d.replace("import envboot", "import boot as envboot")
         (dst / "demo.py").write_text(d)
     meta = json.loads((src / "meta.json").read_text()) if (src / "meta.json").exists() else {}
+    meta.setdefault("property", src.name.split("-")[0])
     meta["origin"] = "independent sub-agent given only the property text and a scratch worktree"
     (dst / "meta.json").write_text(json.dumps(meta, indent=1))
     r = subprocess.run(["git", "-C", "/repo", "apply", "--check", str(dst / "patch.diff")], capture_output=True, text=True)
